@@ -14,6 +14,7 @@ No path is handed to a solver; questions about a state are answered by term equa
 difference-bound closure in zones.py.
 """
 from . import cfg as cfgmod
+from . import effects
 
 UNIT = ("unit",)
 FNAMES = {}  # field place term -> source name of the field (for reports only)
@@ -42,7 +43,13 @@ def subterms(t, seen=None):
     st = [t]
     while st:
         x = st.pop()
-        if not isinstance(x, tuple):
+        if not isinstance(x, tuple) or not x:
+            continue
+        if not isinstance(x[0], str):
+            # a list of terms (call arguments, aggregate fields), not a term
+            for y in x:
+                if isinstance(y, tuple):
+                    st.append(y)
             continue
         yield x
         for y in x[1:]:
@@ -289,7 +296,12 @@ def tstr(t, depth=0):
     if k == "proj":
         return "%s.%d" % (tstr(t[2], d), t[1])
     if k == "agg":
-        nm = t[1] if isinstance(t[1], str) else "%s::%s" % (t[1][1].split("::")[-1], t[1][3])
+        if isinstance(t[1], str):
+            nm = t[1]
+        elif t[1][0] == "adt":
+            nm = "%s::%s" % (t[1][1].split("::")[-1], t[1][3])
+        else:
+            nm = "%s %s" % (t[1][0], str(t[1][1]).split("::", 1)[-1])
         return "%s{%s}" % (nm, ", ".join(tstr(a, d) for a in t[2]))
     if k == "phi":
         return "phi(bb%d,_%d)" % (t[1], t[2])
@@ -297,6 +309,8 @@ def tstr(t, depth=0):
         return "(%s as %s)" % (tstr(t[3], d), t[2])
     if k == "discr":
         return "discr(%s)" % tstr(t[1], d)
+    if k == "boxptr":
+        return "box(%s)" % tstr(t[1], d)
     if k == "down":
         return "(%s as v%d)" % (tstr(t[1], d), t[2])
     if k in ("max", "min"):
@@ -589,6 +603,10 @@ class Interp:
                 return a  # unsizing and pointer casts keep the referent
             if is_int(a) and ck == "IntToInt":
                 return _wrap_int(a[1], rv["ty"])
+            if ck == "Transmute" and (rv.get("from") or "").startswith(("std::ptr::NonNull<", "core::ptr::NonNull<")):
+                # Box<T> deref as elaborated by MIR: ((b.0: Unique).0: NonNull) as *const T
+                if a[0] == "proj" and a[1] == 0 and a[2][0] == "proj" and a[2][1] == 0:
+                    return ("boxptr", a[2][2])
             return ("cast", ck, rv["ty"], a, rv.get("from"))
         if k == "discr":
             return mk_discr(self.read_pl(st, self.place_term(st, rv["place"])))
@@ -600,7 +618,9 @@ class Interp:
                     return ("union", ak["path"], ak["union_field"], ops)
                 return ("agg", ("adt", ak["path"], ak["variant"], ak["variant_name"], tuple(ak["fields"])), ops)
             if ak["k"] == "closure":
-                return ("agg", ("closure", ak["def"]), ops)
+                cb = self.body.crate.by_key.get(ak["def"])
+                sig = effects.canon(cb) if cb is not None else ak["def"]
+                return ("agg", ("closure", ak["def"], sig), ops)
             return ("agg", ak["k"], ops)
         if k == "repeat":
             return ("repeat", self.operand(st, rv["op"]), rv["n"])
@@ -646,10 +666,28 @@ class Interp:
                 res = r
                 handled = True
         pure = handled or self.is_pure(fn)
+        if not handled and not pure:
+            argtys = [effects._op_ty(self.body, a) for a in t["args"]]
+            prog = getattr(self.body.crate, "program", None)
+            pure = effects.call_is_pure(fn, argtys, prog)
+            if pure:
+                # higher-order std helpers are only as pure as the closures handed to them
+                for a in args:
+                    for s_ in subterms(a):
+                        if s_[0] == "agg" and isinstance(s_[1], tuple) and s_[1] and s_[1][0] == "closure":
+                            cb = self.body.crate.by_key.get(s_[1][1])
+                            if cb is None or not effects.purity(cb, prog):
+                                pure = False
         if not handled:
             if pure:
-                reads_mem = any(mentions(a, lambda s: s[0] in ("ref", "load", "deref")) for a in args)
-                res = ("call", key, args, None) if not reads_mem else ("call", key, args + (("mem", st.mem),), None)
+                # closures are compared by their canonical signature, not by identity
+                cargs = tuple(_canon_closures(a) for a in args)
+                places = [s_[1] for a in args for s_ in subterms(a) if s_[0] in ("ref", "optref")]
+                reads_mem = bool(places) or any(mentions(a, lambda s: s[0] in ("load", "deref")) for a in args)
+                if not reads_mem:
+                    res = ("call", key, cargs, None)
+                else:
+                    res = ("call", key, cargs + (("mem", self.reduce_mem(st.mem, places)),), None)
             else:
                 res = ("call", key, args, uid)
         ev = Event("call", bb, callee=key, fn=fn, args=args, res=res, state=(st.facts, mem_before, st.path), extra={"pure": pure, "handled": handled, "dest": t["dest"], "name": name, "trait": trait, "gpath": gpath})
@@ -665,6 +703,14 @@ class Interp:
         if ty and res not in self.tys:
             self.tys[res] = ty
         return res
+
+    def reduce_mem(self, mem, places):
+        """drop the most recent stores that cannot be seen through `places` (ownership axiom:
+        what is reachable from one field of an object is disjoint from its other fields)"""
+        m = mem
+        while m[0] == "store" and places and all(places_disjoint(m[2], p) for p in places):
+            m = m[1]
+        return m
 
     def _havoc_mut_refs(self, st, a, uid, depth):
         if not isinstance(a, tuple) or depth > 4:
@@ -864,6 +910,27 @@ class Interp:
 
     def all_end_states(self):
         return self.final_states + [s for l in self.backedge_states.values() for s in l]
+
+
+def strip_mem(t):
+    """the same term with memory versions erased (node identity across impure calls)"""
+    if not isinstance(t, tuple) or not t:
+        return t
+    if t[0] == "load":
+        return ("load", None, strip_mem(t[2]))
+    if t[0] == "int":
+        return t
+    return tuple(strip_mem(x) if isinstance(x, tuple) else x for x in t)
+
+
+def _canon_closures(t):
+    if not isinstance(t, tuple) or not t:
+        return t
+    if t[0] == "agg" and isinstance(t[1], tuple) and t[1] and t[1][0] == "closure":
+        return ("agg", ("closure", None, t[1][2]), tuple(_canon_closures(x) for x in t[2]))
+    if t[0] == "int":
+        return t
+    return tuple(_canon_closures(x) if isinstance(x, tuple) else x for x in t)
 
 
 def _wrap_int(v, ty):
